@@ -3,7 +3,7 @@
 // Harness for the usage tracker (agent/usage_report.go) and the agent's usage send loop
 // (agent/agent.go sendUsageReport) — property C34.
 //
-// case header: mode=agent|raw
+// case header: mode=agent|raw|loop   (loop: see loop.go)
 // ops (signals are indices into agent.VerifSignals(): 0 traces, 1 logs, 2 events_received, 3 events_dropped)
 //
 //	add <sig> <reading>      usageTracker.Add(signal, cumulative reading)
@@ -100,10 +100,16 @@ func min64(a, b int64) int64 {
 func (comp) Gen(r *kit.Rng, maxLen int, tier string) kit.Case {
 	g := &genState{r: r, resets: r.Chance(15), big: r.Chance(10)}
 	mode := "agent"
-	if r.Chance(30) {
+	switch r.Pick(50, 25, 25) {
+	case 1:
 		mode = "raw"
+	case 2:
+		mode = "loop"
 	}
 	n := 4 + r.Intn(maxLen)
+	if mode == "loop" {
+		return kit.Case{Header: "mode=loop", Ops: genLoop(r, g, n)}
+	}
 	var ops []string
 	adds := func(max int) {
 		k := r.Intn(max + 1)
@@ -177,10 +183,10 @@ func (comp) Gen(r *kit.Rng, maxLen int, tier string) kit.Case {
 					ops = append(ops, "fail")
 				case 4:
 					if r.Chance(50) {
-					ops = append(ops, fmt.Sprintf("tick %s %s", succeeding(), g.mids()))
-				} else {
-					ops = append(ops, fmt.Sprintf("tick %s %s", failing(), g.mids()))
-				}
+						ops = append(ops, fmt.Sprintf("tick %s %s", succeeding(), g.mids()))
+					} else {
+						ops = append(ops, fmt.Sprintf("tick %s %s", failing(), g.mids()))
+					}
 				}
 			}
 		}
@@ -243,9 +249,14 @@ type runner struct {
 	fc    *fakeClient
 	u     *agent.VerifUsage
 	dead  bool // the agent's context was cancelled
+
+	noStamp bool // loop mode: a report may be accepted ticks after it was built
 }
 
 func (comp) NewCase(h []string) kit.Runner {
+	if kit.KV(h, "mode") == "loop" {
+		return newLoopRunner()
+	}
 	r := &runner{clock: clockwork.NewFakeClock(), fc: &fakeClient{}}
 	r.u = agent.VerifNewUsage(r.fc, r.clock)
 	return r
@@ -334,7 +345,7 @@ func (r *runner) decode(data []byte) string {
 						bad = "unknown-point"
 						continue
 					}
-					if dp.Timestamp().AsTime().UnixNano() != r.clock.Now().UnixNano() {
+					if !r.noStamp && dp.Timestamp().AsTime().UnixNano() != r.clock.Now().UnixNano() {
 						bad = "timestamp"
 					}
 					pts[idx] = append(pts[idx], dp.IntValue())
